@@ -21,7 +21,7 @@ func (t vpTermRef) Field() string { return t.field }
 func (t vpTermRef) Term() []byte  { return []byte(t.term) }
 
 var vpReadOpNames = []string{"Dictionary+Iterator", "PostingsList+Iterator", "VisitStoredFields", "DocumentValueReader",
-	"DocsMatchingTerms", "CollectionStats+Fields+Count", "WriteTo", "merge-input"}
+	"DocsMatchingTerms", "CollectionStats+Fields+Count", "WriteTo", "merge-input", "recycled list+iterator (absent term, then present term)"}
 
 // vpReadOp performs read operation k on seg and returns a digest of what it observed.
 func vpReadOp(k int, seg *Segment) []byte {
@@ -95,6 +95,50 @@ func vpReadOp(k int, seg *Segment) []byte {
 		_, _, err := mergeSegmentBasesWriter([]*Segment{seg, seg}, []*roaring.Bitmap{dr, nil}, &buf, 1025, nil)
 		vpMust(err, "merge")
 		dig = append(dig, byte(buf.Len()), byte(buf.Len()>>8))
+	case 8:
+		// the term-searcher pattern: the postings list and the iterator obtained for
+		// one term are handed back as the preallocated objects of the next lookup;
+		// the first term is absent (known field / unknown field): its list and
+		// iterator are the package's shared empty objects
+		for _, fld := range []string{"a", "nofield"} {
+			d, err := seg.Dictionary(fld)
+			vpMust(err, "Dictionary")
+			pl, err := d.PostingsList([]byte("absent"), nil, nil)
+			vpMust(err, "PostingsList")
+			it, err := pl.Iterator(true, true, true, nil)
+			vpMust(err, "Iterator")
+			p, err := it.Next()
+			vpMust(err, "Next")
+			dig = append(dig, byte(pl.Count()))
+			if p != nil {
+				dig = append(dig, 0xee)
+			}
+			d2, err := seg.Dictionary("a")
+			vpMust(err, "Dictionary")
+			pl2, err := d2.PostingsList([]byte("x"), nil, pl)
+			vpMust(err, "PostingsList")
+			it2, err := pl2.Iterator(true, true, true, it)
+			vpMust(err, "Iterator")
+			for {
+				p, err := it2.Next()
+				vpMust(err, "Next")
+				if p == nil {
+					break
+				}
+				dig = append(dig, byte(p.Number()), byte(p.Frequency()))
+			}
+			// an absent term looked up afterwards is still empty
+			pl3, err := d.PostingsList([]byte("absent"), nil, nil)
+			vpMust(err, "PostingsList")
+			it3, err := pl3.Iterator(true, true, true, nil)
+			vpMust(err, "Iterator")
+			p3, err := it3.Next()
+			vpMust(err, "Next")
+			dig = append(dig, byte(pl3.Count()))
+			if p3 != nil {
+				dig = append(dig, 0xef)
+			}
+		}
 	}
 	return dig
 }
